@@ -13,6 +13,7 @@ import (
 
 	"github.com/uber-go/gopatch/internal/astdiff"
 	"github.com/uber-go/gopatch/internal/engine"
+	"github.com/uber-go/gopatch/internal/goast"
 	"github.com/uber-go/gopatch/internal/parse"
 )
 
@@ -66,6 +67,7 @@ func (f *File) Apply(filename string, src []byte) ([]byte, error) {
 
 		snap = snap.Diff(fout, cl)
 		cleanupFilePos(f.fset.File(fout.Pos()), cl, fout.Comments)
+		goast.DropEmptyComments(fout)
 	}
 
 	if retErr != nil {
